@@ -74,4 +74,6 @@ def main(argv):
     if tier == "thorough":
         from . import mutants
         mutants.run_corpus(ctx, prop)
+        from . import equiv
+        equiv.run_all(ctx, prop)
     return framework.finish(ctx, mod.EXPLANATION, mod.UNDECIDED, seed)
